@@ -7,6 +7,7 @@
 // files under trusted_base by a mechanical scan.
 // ---------------------------------------------------------------------------
 #![feature(allocator_api)]
+#![feature(sized_hierarchy)]
 #![allow(unused_imports, dead_code, unused_variables, unused_mut, unused_unsafe, non_snake_case, unused_assignments)]
 use vstd::prelude::*;
 use std::cmp;
@@ -44,6 +45,9 @@ pub mod libc {
     pub const MSG_NOSIGNAL: i32 = 0x4000;
     pub const MSG_CMSG_CLOEXEC: i32 = 0x40000000;
     pub const O_NONBLOCK: i32 = 2048;
+    pub const F_DUPFD_CLOEXEC: i32 = 1030;
+    pub const F_SETFL: i32 = 4;
+    pub const SOCK_CLOEXEC: i32 = 0o2000000;
 }
 
 #[verifier::external_type_specification]
@@ -66,6 +70,7 @@ pub struct K {
     pub peer: Map<c_int, c_int>,        // sending descriptor -> receiving descriptor it is connected to
     pub sock: Set<c_int>,               // descriptors fstat reports as sockets
     pub log: Seq<Attempt>,              // every transmission attempt, in program order
+    pub own_rx: Set<c_int>,             // receive-end descriptors THIS process still holds open
 }
 
 pub open spec fn spec_frag(s: nat) -> nat { (s - 32) as nat }
